@@ -238,6 +238,28 @@ impl Request {
             Ok (n) => n
         };
 
+        /*
+            The head of a request can arrive in several TCP segments:
+            read until the end of head comes, not assuming one `read` brings it all.
+        */
+        let mut n = n;
+        while !self.__buf__[..n].windows(4).any(|w| w == b"\r\n\r\n") {
+            if n == BUF_SIZE {
+                return Err((|| Response::RequestHeaderFieldsTooLarge())())
+            }
+            match stream.read(&mut self.__buf__[n..]).await {
+                Ok (0) => return Ok(None),
+                Err(e) => return match e.kind() {
+                    std::io::ErrorKind::ConnectionReset => Ok(None),
+                    _ => Err((|err| {
+                        crate::warning!("Failed to read stream: {err}");
+                        Response::InternalServerError()
+                    })(e))
+                },
+                Ok (m) => n += m
+            }
+        }
+
         let mut r = Reader::new(unsafe {
             // pass detouched bytes
             // to resolve immutable/mutable borrowing
